@@ -70,6 +70,45 @@ func (s *concScheduler) Run(resolver graphql.UnitResolver, units ...*graphql.Wor
 	wg.Wait()
 }
 
+// choiceScheduler runs every unit on the calling goroutine and picks the next unit by a prescribed
+// sequence of choices (0 beyond its end), recording how many units it could choose from at every step:
+// the driver enumerates ALL schedules of a query depth-first from these widths (stateless exploration).
+type choiceScheduler struct {
+	choices []int
+	widths  []int
+}
+
+func (s *choiceScheduler) Run(resolver graphql.UnitResolver, units ...*graphql.WorkUnit) {
+	q := append([]*graphql.WorkUnit{}, units...)
+	for len(q) > 0 {
+		step := len(s.widths)
+		s.widths = append(s.widths, len(q))
+		i := 0
+		if step < len(s.choices) {
+			i = s.choices[step]
+		}
+		if i >= len(q) {
+			i = len(q) - 1
+		}
+		u := q[i]
+		q = append(q[:i], q[i+1:]...)
+		q = append(q, resolver(u)...)
+	}
+}
+
+// nextChoices advances a choice sequence to the next schedule in depth-first order (nil when done).
+func nextChoices(choices, widths []int) []int {
+	c := make([]int, len(widths))
+	copy(c, choices)
+	for i := len(widths) - 1; i >= 0; i-- {
+		if c[i]+1 < widths[i] {
+			c[i]++
+			return c[:i+1]
+		}
+	}
+	return nil
+}
+
 func scheduler(name string, r *rand.Rand) graphql.WorkScheduler {
 	switch name {
 	case "stock":
@@ -98,6 +137,7 @@ type Run struct {
 	EKey    string            `json:"ekey"`     // injected failure it names ("" if none)
 	EKind   string            `json:"ekind"`    // plain | safe | wrapped | panic | other
 	Leak    bool              `json:"leak"`     // reserved for the websocket part
+	NSched  int               `json:"nsched"`   // allsched: how many enumerated schedules gave exactly this outcome
 }
 
 type Rec struct {
@@ -109,6 +149,8 @@ type Rec struct {
 	Runs   []Run             `json:"runs"`
 	Pruned Run               `json:"pruned"` // the textually pruned query under the first configuration (C19)
 	PText  string            `json:"ptext"`
+	NSched         int  `json:"nsched"`         // allsched: schedules enumerated for this query
+	SchedExhausted bool `json:"schedexhausted"` // ... and whether that was all of them
 }
 
 var keyRe = regexp.MustCompile(`(secret-plain|safe|wrapped|secret-inner|secret-panic):([a-z0-9]+\.[a-zA-Z0-9]+)`)
@@ -186,6 +228,7 @@ func Main(args []string) error {
 	worldSeed := fs.Int64("world", 1, "data graph seed")
 	depth := fs.Int("depth", 3, "")
 	queries := fs.String("queries", "", "ndjson of TLC-generated query ASTs to run instead of random ones")
+	allSched := fs.Int("allsched", 0, "additionally enumerate every schedule of every query depth-first, up to this many per query")
 	if err := fs.Parse(args); err != nil {
 		return err
 	}
@@ -269,6 +312,34 @@ func Main(args []string) error {
 			run := execute(schemaFor(modes), rec.Text, scheduler(sn, r))
 			run.Modes, run.Sched = modes, sn
 			rec.Runs = append(rec.Runs, run)
+		}
+		if *allSched > 0 {
+			// every order in which a sequential scheduler can run the work units of this query (one mode
+			// assignment per query); runs with the same outcome are recorded once, with their number
+			modes := randModes()
+			schema := schemaFor(modes)
+			seen := map[string]int{}
+			var choices []int
+			n := 0
+			for n < *allSched {
+				cs := &choiceScheduler{choices: choices}
+				run := execute(schema, rec.Text, cs)
+				n++
+				sig, _ := json.Marshal([]interface{}{run.Outcome, run.Res, run.EKey, run.EPath, run.EKind})
+				if at, ok := seen[string(sig)]; ok {
+					rec.Runs[at].NSched++
+				} else {
+					run.Modes, run.Sched, run.NSched = modes, fmt.Sprintf("dfs%v", cs.choices), 1
+					seen[string(sig)] = len(rec.Runs)
+					rec.Runs = append(rec.Runs, run)
+				}
+				choices = nextChoices(cs.choices, cs.widths)
+				if choices == nil {
+					rec.SchedExhausted = true
+					break
+				}
+			}
+			rec.NSched = n
 		}
 		if *dirs {
 			p := Prune(ast)
